@@ -168,10 +168,14 @@ class RQueue:
         self.name = name
 
     def put(self, item, block=True, timeout=None):
+        if timeout is not None:
+            block = False  # time is abstracted exactly as in the model: a timed call may expire whenever it would wait
         self.c.gate("%s.put" % self.name, (lambda: True) if (not block or self.maxsize is None) else (lambda: self.q.qsize() < self.maxsize))
         self.q.put(item, block=False) if True else None
 
     def get(self, block=True, timeout=None):
+        if timeout is not None:
+            block = False
         self.c.gate("%s.get" % self.name, (lambda: True) if not block else (lambda: self.q.qsize() > 0))
         return self.q.get(block=False)
 
@@ -374,7 +378,7 @@ def gate_attributes(ctrl, obj, attrs, objname):
     obj.__class__ = type(cls.__name__, (cls,), ns)
 
 
-def run_replay(make, cfg, schedule, params, expect):
+def run_replay(make, cfg, schedule, params, expect, faults=None):
     """make(cfg, ctx, mode) -> dict(scenario=fn, args=tuple, setup=callable(ctrl, restore) | None).
     schedule: list of {"thread", "op", "visible"}. Returns dict(reproduced, observed, log, ...)."""
     ctrl = Controller()
@@ -382,6 +386,9 @@ def run_replay(make, cfg, schedule, params, expect):
     restore = []
     intr.REPLAY["params"] = dict(params)
     intr.REPLAY["asserts"] = []
+    intr.REPLAY["mon"] = {}
+    intr.REPLAY["faults"] = dict(faults or {})
+    intr.REPLAY["ctrl"] = ctrl
     out = {"reproduced": False, "observed": None, "divergence": None}
     try:
         built = make(cfg, ctx, "replay", ctrl=ctrl, restore=restore)
@@ -400,7 +407,10 @@ def run_replay(make, cfg, schedule, params, expect):
         out["thread_errors"] = list(ctrl.errors)
         out["ops_executed"] = len(ctrl.log)
         out["log_tail"] = ["%s:%s" % x for x in ctrl.log[-12:]]
-        if expect == "deadlock":
+        if expect == "witness":
+            out["reproduced"] = phase == "done" and not out["asserts"] and not ctrl.errors
+            out["observed"] = "complete run, no assertion violated" if out["reproduced"] else "%s asserts=%s errors=%s" % (phase, out["asserts"], ctrl.errors)
+        elif expect == "deadlock":
             out["reproduced"] = phase == "deadlock"
             out["observed"] = "deadlock: every live thread waits at a disabled operation: %s" % (
                 {n: ctrl.waiting[n][0] for n in ctrl.waiting},) if phase == "deadlock" else phase
